@@ -42,7 +42,7 @@ func zxInRows(R, periods int) []zxInRow {
 	rows := make([]zxInRow, R)
 	for i := range rows {
 		r := &rows[i]
-		r.x = vrtShape("x"+zxItoa(i), 2) + 1
+		r.x = vrtShape("x"+zxItoa(i), 2+vrtParam("xabsent", 0)) + 1 - vrtParam("xabsent", 0)
 		r.y = vrtShape("y"+zxItoa(i), vrtParam("ny", 3))
 		for p := 0; p < periods; p++ {
 			r.a[p], r.b[p] = vrtFloat64("a"), vrtFloat64("b")
@@ -53,7 +53,10 @@ func zxInRows(R, periods int) []zxInRow {
 }
 
 func zxKeyOf(r zxInRow) bytemap.ByteMap {
-	m := map[string]interface{}{"x": r.x}
+	m := map[string]interface{}{}
+	if r.x != 0 {
+		m["x"] = r.x
+	}
 	if r.y != 0 {
 		m["y"] = r.y
 	}
@@ -165,11 +168,15 @@ var zxCorpus = []zxQuery{
 	{"SELECT a FROM t WHERE x IN (SELECT x FROM t HAVING a > 5) GROUP BY y", false},
 	{"SELECT a FROM (SELECT a FROM t GROUP BY x, y) GROUP BY x", false},
 	{"SELECT a FROM t WHERE y = 1 AND x <> 3 GROUP BY x", false},
+	{"SELECT a FROM t GROUP BY x, y ORDER BY x, y, _time LIMIT 1, 2", true},
+	{"SELECT a FROM t GROUP BY y ORDER BY y, _time LIMIT 1, 1", true},
+	{"SELECT a, b FROM t GROUP BY x HAVING a > b ORDER BY x DESC, _time LIMIT 1", true},
+	{"SELECT a FROM t WHERE x IN (SELECT x FROM t WHERE y = 1) GROUP BY x, y", false},
 }
 
 var zxPartitionKeys = [][]string{{"x"}, {"x", "y"}, nil}
 
-//zx:harness prop=C11+C10 id=C11.V tier=quick mode=real shard=q:20,keys:3 R=2 NP=2 quick.ny=2 quick.nperiods=1 thorough.R=3 thorough.NP=3 paths=20000
+//zx:harness prop=C11+C10 id=C11.V tier=quick mode=real shard=q:24,keys:3 R=2 NP=2 quick.ny=2 quick.nperiods=1 thorough.R=3 thorough.NP=3 paths=20000
 func zxC11Validate() {
 	q := zxCorpus[vrtShape("q", len(zxCorpus))]
 	partitionBy := zxPartitionKeys[vrtShape("keys", len(zxPartitionKeys))]
@@ -308,6 +315,8 @@ var zxWhereCases = []zxWhereCase{
 	{"SELECT a FROM t WHERE y IS NOT NULL AND x < 2 GROUP BY _", func(r zxInRow) bool { return r.y != 0 && r.x < 2 }},
 	{"SELECT a FROM t WHERE x IN (2, 3) OR y > 1 GROUP BY x, y", func(r zxInRow) bool { return r.x == 2 || r.x == 3 || r.y > 1 }},
 	{"SELECT a FROM t WHERE NOT (x = 2) GROUP BY y, period(2s)", func(r zxInRow) bool { return r.x != 2 }},
+	{"SELECT a FROM t WHERE y IS NULL OR y = 2", func(r zxInRow) bool { return r.y == 0 || r.y == 2 }},
+	{"SELECT a, b FROM t WHERE x IS NULL OR x = 2 GROUP BY y", func(r zxInRow) bool { return r.x == 0 || r.x == 2 }},
 }
 
 func zxStripWhere(sql string) string {
@@ -331,7 +340,7 @@ func zxStripWhere(sql string) string {
 // C08.W — WHERE over dimensions returns what the same query without WHERE returns when only the
 // rows whose dimensions satisfy the predicate are in the table.
 //
-//zx:harness prop=C08 id=C08.W tier=quick mode=real shard=case:7,x0:2 R=2 quick.ny=3 quick.nperiods=1 thorough.R=3
+//zx:harness prop=C08 id=C08.W tier=quick mode=real shard=case:9,x0:3 R=2 xabsent=1 quick.ny=3 quick.nperiods=1 thorough.R=3
 func zxC08Where() {
 	c := zxWhereCases[vrtShape("case", len(zxWhereCases))]
 	periods := vrtShape("periods", vrtParam("nperiods", 2)) + 3 - vrtParam("nperiods", 2)
@@ -445,4 +454,153 @@ func zxC06Query() {
 	vrtAssert(len(got) == len(want), "one output row per (projected key, coarse period): "+c.sql)
 	vrtAssert(zxSameRows(want, got, false), "each output row is the aggregate of the raw values of its key and coarse period: "+c.sql)
 	vrtReach("C06.Q")
+}
+
+
+// ---- C08.I -----------------------------------------------------------------------------------
+
+type zxInCase struct {
+	sub  string
+	pred func(r []zxInRow, x int, p int) bool // does x qualify through period p of the sub-query result?
+}
+
+func zxSumFor(rows []zxInRow, x, p int, f func(zxInRow) [3]float64, only func(zxInRow) bool) (float64, bool) {
+	s, any := 0.0, false
+	for _, r := range rows {
+		if r.x == x && (only == nil || only(r)) {
+			s += f(r)[p]
+			any = true
+		}
+	}
+	return s, any
+}
+
+func zxA(r zxInRow) [3]float64 { return r.a }
+func zxB(r zxInRow) [3]float64 { return r.b }
+
+var zxInCases = []zxInCase{
+	{"SELECT x FROM t GROUP BY x HAVING a > 5", func(rows []zxInRow, x, p int) bool {
+		a, any := zxSumFor(rows, x, p, zxA, nil)
+		return any && a > 5
+	}},
+	{"SELECT x FROM t GROUP BY x HAVING b >= a", func(rows []zxInRow, x, p int) bool {
+		a, any := zxSumFor(rows, x, p, zxA, nil)
+		b, _ := zxSumFor(rows, x, p, zxB, nil)
+		return any && b >= a
+	}},
+	{"SELECT x FROM t WHERE y = 1 GROUP BY x", func(rows []zxInRow, x, p int) bool {
+		_, any := zxSumFor(rows, x, p, zxA, func(r zxInRow) bool { return r.y == 1 })
+		return any
+	}},
+	{"SELECT x FROM t WHERE y = 1 GROUP BY x HAVING a < 0", func(rows []zxInRow, x, p int) bool {
+		a, any := zxSumFor(rows, x, p, zxA, func(r zxInRow) bool { return r.y == 1 })
+		return any && a < 0
+	}},
+}
+
+// C08.I — `dim IN (SELECT dim ...)` behaves like IN over the literal list of distinct values the
+// sub-query returns (the list is computed in the harness from the raw rows and the sub-query's
+// WHERE/HAVING meaning, then spliced into the outer query as literals).
+//
+//zx:harness prop=C08 id=C08.I tier=quick mode=real shard=case:4,x0:2 R=3 quick.ny=2 quick.nperiods=1
+func zxC08InSubquery() {
+	c := zxInCases[vrtShape("case", len(zxInCases))]
+	periods := 1
+	rows := zxInRows(vrtParam("R", 3), periods)
+	tbl := zxTableOf("t", rows, periods, []string{"x"})
+	list := ""
+	for x := 1; x <= 2; x++ {
+		ok := false
+		for p := 0; p < periods; p++ {
+			if c.pred(rows, x, p) {
+				ok = true
+			}
+		}
+		if ok {
+			if list != "" {
+				list += ", "
+			}
+			list += zxItoa(x)
+		}
+	}
+	if list == "" {
+		list = "-999"
+	}
+	outer := "SELECT a, b FROM t WHERE x IN (%s) GROUP BY y"
+	withSub := "SELECT a, b FROM t WHERE x IN (" + c.sub + ") GROUP BY y"
+	withList := "SELECT a, b FROM t WHERE x IN (" + list + ") GROUP BY y"
+	_ = outer
+	p1, err1 := Plan(withSub, zxOpts(map[string]*zxTable{"t": tbl}))
+	p2, err2 := Plan(withList, zxOpts(map[string]*zxTable{"t": tbl}))
+	vrtAssert(err1 == nil && err2 == nil, "both forms plan: "+withSub)
+	if err1 != nil || err2 != nil {
+		return
+	}
+	got, _, gerr := zxRun(p1)
+	want, _, werr := zxRun(p2)
+	vrtAssert(gerr == nil && werr == nil, "both forms run")
+	vrtAssert(len(got) == len(want), "IN (sub-query) returns as many rows as IN ("+list+"): "+c.sub)
+	vrtAssert(zxSameRows(want, got, false), "IN (sub-query) returns the rows of IN ("+list+"): "+c.sub)
+	vrtReach("C08.I")
+}
+
+// ---- C07.Q -----------------------------------------------------------------------------------
+
+// C07.Q — time ranges through the real planner with an unaligned database clock: with the clock
+// at now = until − frac (symbolic 0 <= frac < 1 resolution), ASOF/UNTIL given relative to the
+// clock or as absolute instants select exactly the stored periods (T−res, T] with
+// T−res >= asOf_raw and T−res < until_raw, i.e. every period inside the window obtained by
+// rounding both bounds up to the resolution, and no other; values are those of the unbounded
+// query.
+//
+//zx:harness prop=C07 id=C07.Q tier=quick mode=real shard=case:8
+func zxC07TimeRange() {
+	frac := time.Duration(vrtRange("frac", 0, int64(time.Second)-1))
+	now := zxUntil.Add(-frac) // RoundTimeUp(now) = zxUntil, the table's until
+	abs := func(d time.Duration) string { return zxUntil.Add(d).UTC().Format(time.RFC3339) }
+	type trCase struct {
+		clause           string
+		asOfRaw, untilRaw time.Time
+		hasUntil         bool
+	}
+	cases := []trCase{
+		{"ASOF '-1500ms'", now.Add(-1500 * time.Millisecond), time.Time{}, false},
+		{"ASOF '-2s'", now.Add(-2 * time.Second), time.Time{}, false},
+		{"ASOF '-2500ms' UNTIL '-1s'", now.Add(-2500 * time.Millisecond), now.Add(-time.Second), true},
+		{"ASOF '-3s' UNTIL '-1200ms'", now.Add(-3 * time.Second), now.Add(-1200 * time.Millisecond), true},
+		{"ASOF '" + abs(-3*time.Second) + "'", zxUntil.Add(-3 * time.Second), time.Time{}, false},
+		{"ASOF '" + abs(-3*time.Second) + "' UNTIL '-1s'", zxUntil.Add(-3 * time.Second), now.Add(-time.Second), true},
+		{"ASOF '-2500ms' UNTIL '" + abs(-1*time.Second) + "'", now.Add(-2500 * time.Millisecond), zxUntil.Add(-time.Second), true},
+		{"ASOF '" + abs(-2*time.Second) + "' UNTIL '" + abs(-1*time.Second) + "'", zxUntil.Add(-2 * time.Second), zxUntil.Add(-time.Second), true},
+	}
+	c := cases[vrtShape("case", len(cases))]
+	periods := 3
+	rows := zxInRows(1, periods)
+	tbl := zxTableOf("t", rows, periods, []string{"x"})
+	opts := zxOpts(map[string]*zxTable{"t": tbl})
+	opts.Now = func(table string) time.Time { return now }
+	sqlString := "SELECT a FROM t " + c.clause + " GROUP BY x"
+	plan, err := Plan(sqlString, opts)
+	vrtAssert(err == nil, "the query plans: "+sqlString)
+	if err != nil {
+		return
+	}
+	got, _, gerr := zxRun(plan)
+	vrtAssert(gerr == nil, "the query runs: "+sqlString)
+	var want []zxOutRow
+	key := string(bytemap.New(map[string]interface{}{"x": rows[0].x}))
+	for p := periods - 1; p >= 0; p-- {
+		T := zxUntil.Add(-time.Duration(p) * time.Second)
+		start := T.Add(-time.Second)
+		inside := !start.Before(c.asOfRaw) && (!c.hasUntil || start.Before(c.untilRaw))
+		if inside {
+			want = append(want, zxOutRow{T.UnixNano(), key, []float64{rows[0].a[p]}})
+		}
+	}
+	if len(want) == 0 {
+		return // an empty window is widened to one period by design (group.GetAsOf)
+	}
+	vrtAssert(len(got) == len(want), "exactly the periods inside the window are returned: "+sqlString)
+	vrtAssert(zxSameRows(want, got, false), "the returned periods carry the values of the unbounded query: "+sqlString)
+	vrtReach("C07.Q")
 }
